@@ -17,7 +17,8 @@ RULE = ("Key sequences over {a, b, '', 'a|b', 'b|c', '__NULL__', null} with 1-3 
         "(thorough) over 4x4 symbols (incl. the '|' and '__NULL__' dictionary tokens), each at page capacities 2, 3 and "
         "unbounded; random sequences up to length 60 with 1-3 levels, nrow such that page starts fall on every row "
         "position, optionally combined with page_by / subline_by on other columns, contiguous and deliberately "
-        "non-contiguous orders. Oracle (reference, null is a value): a group cell of level l on row i is '' iff i is "
+        "non-contiguous orders (half of them encoded right after the same rows in grouped order, in the same process); "
+        "group columns standing in the frame in group_by order, reversed, or after the other columns. Oracle (reference, null is a value): a group cell of level l on row i is '' iff i is "
         "not the first data row of its page and the prefix key (levels <= l) equals that of row i-1, else the "
         "display text; other columns equal the input; forward-filling blanks within a page reconstructs the column "
         "(when it has no null/empty values). Rejection: full key non-contiguous -> ValueError required; every prefix "
@@ -31,12 +32,15 @@ L1 = ["a", "a|b", None, "__NULL__"]
 L2 = ["c", "b|c", None, "k"]
 
 
-def make(levels_vals, nrow=100, extra=None, body_extra=None):
+def make(levels_vals, nrow=100, extra=None, body_extra=None, layout="front"):
+    """layout: where the group columns stand in the frame - 'front' (in group_by order), 'reversed' (inner level left
+    of the outer one) or 'tail' (after the other columns, reversed); group_by always lists outer -> inner."""
     n = len(levels_vals[0]) if levels_vals else 0
-    cols = [{"name": f"@N{l}", "dtype": "str", "values": list(v)} for l, v in enumerate(levels_vals)]
-    k = len(cols)
-    cols.append({"name": f"@N{k}", "dtype": "str", "values": [f"r{i}c{k}" for i in range(n)]})
-    cols.append({"name": f"@N{k + 1}", "dtype": "int", "values": [i * 7 if i % 3 else None for i in range(n)]})
+    gcols = [{"name": f"@N{l}", "dtype": "str", "values": list(v)} for l, v in enumerate(levels_vals)]
+    k = len(gcols)
+    others = [{"name": f"@N{k}", "dtype": "str", "values": [f"r{i}c{k}" for i in range(n)]},
+              {"name": f"@N{k + 1}", "dtype": "int", "values": [i * 7 if i % 3 else None for i in range(n)]}]
+    cols = {"front": gcols + others, "reversed": gcols[::-1] + others, "tail": others + gcols[::-1]}[layout]
     body = {"group_by": [f"@N{l}" for l in range(len(levels_vals))], "text_convert": False}
     if extra:
         cols.append(extra)
@@ -57,7 +61,7 @@ def enumerate_cases(tier):
     for n in range(1, max2 + 1):
         for seq in itertools.product(pairs, repeat=n):
             k += 1
-            yield make([[p[0] for p in seq], [p[1] for p in seq]], nrow=(2, 3, 100)[k % 3])
+            yield make([[p[0] for p in seq], [p[1] for p in seq]], nrow=(2, 3, 100)[k % 3], layout=("front", "reversed", "tail")[(k // 3) % 3])
 
 
 @st.composite
@@ -99,9 +103,13 @@ def _random(draw):
             pos += r
         extra = {"name": "@Nx", "dtype": "str", "values": vals}
         body_extra = {"page_by": ["@Nx"]} if other == "page_by" else {"subline_by": ["@Nx"]}
-    rec = make(cols, nrow=draw(st.one_of(st.integers(1, 12), st.just(100))), extra=extra, body_extra=body_extra)
+    rec = make(cols, nrow=draw(st.one_of(st.integers(1, 12), st.just(100))), extra=extra, body_extra=body_extra,
+               layout=draw(st.sampled_from(["front", "front", "reversed", "tail"])))
     if draw(st.booleans()):
         rec["sections"][0]["headers"] = "default"
+    if mode != "contiguous" and draw(st.booleans()):
+        # history: the same complete rows, ordered so that the keys are contiguous, are encoded first in this process
+        rec["warmup"] = "same_rows_grouped"
     return rec
 
 
@@ -137,6 +145,16 @@ def check(case) -> Result:
     full_ok = contiguity(full)
     all_prefix_ok = all(contiguity([k[: l + 1] for k in full]) for l in range(len(gb)))
     has_null = any(None in k for k in full)
+    if case.get("warmup"):
+        order, first_seen = [], {}
+        for i, k in enumerate(full):
+            first_seen.setdefault(k, len(first_seen))
+        order = sorted(range(n), key=lambda i: (first_seen[full[i]], i))
+        import copy
+        warm = copy.deepcopy({k: v for k, v in case.items() if k != "warmup"})
+        for c in warm["sections"][0]["df"]["cols"]:
+            c["values"] = [c["values"][i] for i in order]
+        run_recipe(warm, parse=False)
     out = run_recipe(case)
     if out.build_error:
         res.harness_error = "recipe does not build: " + out.build_error
